@@ -74,7 +74,8 @@ def result(failures=None, sig='', nontrivial=True, counters=None, digest='', ver
             'nontrivial': bool(nontrivial), 'counters': counters or {}, 'digest': digest, 'note': note}
 
 
-class RunTimeout(Exception):
+class RunTimeout(BaseException):
+    """Soft wall cap of one run; derives from BaseException so that property code catching Exception cannot mistake it for a model failure."""
     pass
 
 
